@@ -133,7 +133,7 @@ func Charge(r Request, cap NodeCap) [3]float64 {
 	return c
 }
 
-type QueueFacts struct{ Adds, NearLimit, NearQuota, OverAtStart int }
+type QueueFacts struct{ Adds, NearLimit, NearQuota, OverAtStart, FailedCall int }
 
 type qAcc struct{ all, np [3]float64 }
 
@@ -198,7 +198,15 @@ func CheckQueueLimits(w *World, rec *CycleRecord) ([]Finding, QueueFacts) {
 	}
 	for i, c := range rec.Calls {
 		pv := rec.Before.ByName[c.Pod]
-		if pv == nil || c.Err != "" {
+		if c.Err != "" {
+			// C08 does not quantify over failing API calls. Failures also arise without injection: a pod that was bound
+			// and evicted earlier in the cycle is gone from the API at once, and evicting it again (after it was
+			// nominated elsewhere) returns NotFound; the commit then keeps the reclaimer's placements although the victim
+			// was put back. From the first failed call on the cycle is outside the property.
+			facts.FailedCall++
+			break
+		}
+		if pv == nil {
 			continue
 		}
 		wl := wls[pv.Workload]
@@ -280,6 +288,7 @@ func JudgeQueueLimits(w *World) *Verdict {
 		fs, f := CheckQueueLimits(w, rec)
 		v.Findings = append(v.Findings, fs...)
 		tot.Adds += f.Adds
+		tot.FailedCall += f.FailedCall
 		tot.NearLimit += f.NearLimit
 		tot.NearQuota += f.NearQuota
 		tot.OverAtStart += f.OverAtStart
@@ -293,6 +302,7 @@ func JudgeQueueLimits(w *World) *Verdict {
 	add(tot.NearLimit > 0, "add-within-one-request-of-a-limit")
 	add(tot.NearQuota > 0, "non-preemptible-add-within-one-request-of-quota")
 	add(tot.OverAtStart > 0, "queue-above-limit-at-cycle-start")
+	add(tot.FailedCall > 0, "cycle-cut-at-failed-api-call(outside-quantifier)")
 	add(w.Config.FullHierarchy, "full-hierarchy")
 	v.Nontrivial = tot.NearLimit > 0 || tot.NearQuota > 0
 	return v
